@@ -7,7 +7,7 @@ SPEC = {
          "quick": {"shards": 8, "timeout": 300}, "thorough": {"shards": 16, "timeout": 1500}},
         {"name": "machine", "pkg": RF, "kind": "rapid", "run": "^TestVerifC11Machine$",
          "quick": {"checks": 400, "shards": 4, "timeout": 300},
-         "thorough": {"checks": 3000, "shards": 16, "timeout": 1500}},
+         "thorough": {"checks": 12000, "shards": 16, "timeout": 1500}},
         {"name": "concurrent", "pkg": RF, "kind": "rapid", "run": "^TestVerifC11Concurrent$",
          "quick": {"checks": 400, "shards": 2, "timeout": 300, "race": True},
          "thorough": {"checks": 4000, "shards": 8, "timeout": 1500, "race": True}},
